@@ -1243,6 +1243,23 @@ func parseSeqCase(col *Collector, d *Driver, r *Rand, ops []string, seed, idx ui
 		if idx%1499 == 0 && style == 0 {
 			col.Sample(text)
 		}
+		// the same text with the numeric operand written as an alias name that ends in `e`
+		// (`size-1`, `rate*2`): a name directly before a sign and a digit is still a name
+		// (seeded change R5-C15-2: an exponent rule in the lexer that never looks at the mantissa)
+		if strings.Contains(text, "int(value)") {
+			for ai, alias := range []string{"size", "ratE"} {
+				qa := "select int(value) as " + alias + " where " + strings.ReplaceAll(text, "int(value)", alias)
+				if ai == 1 {
+					qa = "select " + strings.ReplaceAll(text, "int(value)", alias) + ", int(value) as " + alias + " where key = 'a'"
+				}
+				la := label + "/alias-name"
+				eng, _, err := parseCompare(col, d, parseCase{qa, la}, seed, idx)
+				if err != nil {
+					return err
+				}
+				parseProps(col, parseCase{qa, la}, eng, "PARSE "+hxs(qa)+" "+floatTable(qa), seed, idx)
+			}
+		}
 	}
 	return nil
 }
